@@ -1438,7 +1438,7 @@ pub fn def(tier: Tier) -> CheckDef {
     sub_opcodes(tier, &mut subs);
     sub_sequences(tier, &mut subs);
     sub_tombstone(tier, &mut subs);
-    sub_boundary(tier, &mut subs);
+    sub_boundary(Tier::Thorough, &mut subs); // cheap: thorough bounds in both tiers
     sub_tables_v4(tier, &mut subs);
     sub_tables_v5(tier, &mut subs);
     sub_raw(tier, &mut subs);
